@@ -38,7 +38,7 @@ OUTSIDE = ['sprite/rect blocks larger than the stated shapes',
 
 def gfx_of(x, name='gfx'):
     m = x.mem(name, 8192)
-    return hx.bare(Gfx, _data=m, _version=8), hx.snap(m)
+    return hx.made(Gfx, m), hx.snap(m)
 
 
 def same_rows(got, exp):
@@ -106,7 +106,7 @@ def set_sprite(x, p):
 def map_of(x):
     gfx, oldg = gfx_of(x)
     mm = x.mem('map', 4096)
-    mp = hx.bare(Map, _data=mm, _version=8, _gfx=gfx)
+    mp = hx.made(Map, mm, gfx=gfx)
     return mp, gfx, hx.snap(mm), oldg
 
 
@@ -204,7 +204,7 @@ def rect_pixels(x, p):
 def gff(x, p):
     m = x.mem('gff', 256)
     old = hx.snap(m)
-    g = hx.bare(Gff, _data=m, _version=8)
+    g = hx.made(Gff, m)
     idn = x.int('id', 0, 255)
     fl = x.int('flags', 0, 255)
     a = x.int('addr', 0, 255)
@@ -238,7 +238,7 @@ def opt(x, name, lo, hi):
 def sfx_note(x, p):
     m = x.mem('sfx', 4352)
     old = hx.snap(m)
-    s = hx.bare(Sfx, _data=m, _version=8)
+    s = hx.made(Sfx, m)
     idn = x.int('id', 0, 63)
     note = x.int('note', 0, 31)
     base = idn * 68 + note * 2
@@ -275,7 +275,7 @@ def sfx_note(x, p):
 def sfx_props(x, p):
     m = x.mem('sfx', 4352)
     old = hx.snap(m)
-    s = hx.bare(Sfx, _data=m, _version=8)
+    s = hx.made(Sfx, m)
     idn = x.int('id', 0, 63)
     got = s.get_properties(idn)
     x.check('get_properties', And(*[got[k] == old[idn * 68 + 64 + k]
@@ -301,7 +301,7 @@ def sfx_props(x, p):
 def music(x, p):
     m = x.mem('music', 256)
     old = hx.snap(m)
-    mu = hx.bare(Music, _data=m, _version=8)
+    mu = hx.made(Music, m)
     idn = x.int('id', 0, 63)
     ch = x.int('ch', 0, 3)
     ob = old[idn * 4 + ch]
@@ -348,6 +348,159 @@ def music(x, p):
             pr2[k] == (pr[k] if fl[k] is None else fl[k]) for k in range(3)]))
         x.check('set_properties keeps channel ids and other bytes',
                 mu._data[a] == exp)
+
+
+# --- read, write elsewhere, read again ------------------------------------------
+
+def rwr(x, p):
+    """A read, then a write through the same or another object on the shared
+    memory, then the same read again: the second read reflects memory as it
+    is now - the objects keep nothing that a write elsewhere makes stale.
+    (The effect of each write on memory is the subject of the other
+    harnesses; here the expected value is computed from memory after it.)"""
+    kind = p['kind']
+    if kind in ('sprite-via-map', 'cell-via-sprite', 'pixels-via-cell',
+                'sprite-via-sprite'):
+        mp, gfx, oldm, oldg = map_of(x)
+        idn = x.int('id', 0, 255)
+        cx = x.int('x', 0, 127)
+        cy = x.int('y', 0, 63)
+        val = x.int('val', 0, 255)
+        try:
+            if kind == 'sprite-via-map':
+                first = gfx.get_sprite(idn, 1, 1)
+                mp.set_cell(cx, cy, val)
+                newg = hx.snap(gfx._data)
+                got = gfx.get_sprite(idn, 1, 1)
+                x.check_all('get_sprite after a map edit of the shared rows',
+                            same_rows(got, M.sprite_expected(newg, idn, 1,
+                                                             1)))
+            elif kind == 'sprite-via-sprite':
+                id2 = x.int('id2', 0, 255)
+                first = gfx.get_sprite(idn, 1, 1)
+                gfx.set_sprite(id2, [[val & 15, (val >> 4) & 15]])
+                newg = hx.snap(gfx._data)
+                got = gfx.get_sprite(idn, 1, 1)
+                x.check_all('get_sprite after set_sprite elsewhere',
+                            same_rows(got, M.sprite_expected(newg, idn, 1,
+                                                             1)))
+            elif kind == 'cell-via-sprite':
+                first = mp.get_cell(cx, cy)
+                gfx.set_sprite(idn, [[val & 15, (val >> 4) & 15]])
+                newg = hx.snap(gfx._data)
+                got = mp.get_cell(cx, cy)
+                x.check('get_cell after a sprite edit of the shared rows',
+                        got == M.cell_get(oldm, newg, cx, cy))
+                r = mp.get_rect_tiles(cx, cy, 1, 1)
+                x.check('get_rect_tiles after a sprite edit',
+                        r[0][0] == M.cell_get(oldm, newg, cx, cy))
+            else:
+                first = mp.get_rect_pixels(cx, cy, 1, 1)
+                cx2 = x.int('x2', 0, 127)
+                cy2 = x.int('y2', 0, 63)
+                mp.set_cell(cx2, cy2, val)
+                newg, newm = hx.snap(gfx._data), hx.snap(mp._data)
+                got = mp.get_rect_pixels(cx, cy, 1, 1)
+                tid = M.cell_get(newm, newg, cx, cy)
+                exp = []
+                for r in range(8):
+                    row = []
+                    for c in range(8):
+                        v = M.px_get(newg, (tid % 16) * 8 + c,
+                                     (tid // 16) * 8 + r)
+                        row.append(Ite(tid == 0, 0, v))
+                    exp.append(row)
+                x.check_all('get_rect_pixels after a map edit',
+                            same_rows(got, exp))
+        except Exception as e:
+            x.check('accessors do not raise inside their contract', False,
+                    info=repr(e))
+        return
+    if kind == 'gff':
+        m = x.mem('gff', 256)
+        g = hx.made(Gff, m)
+        idn, id2 = x.int('id', 0, 255), x.int('id2', 0, 255)
+        fl, mask = x.int('flags', 0, 255), x.int('mask', 0, 255)
+        op = x.choice('op', ['set', 'clear', 'reset'])
+        first = g.get_flags(idn, mask)
+        getattr(g, op + '_flags')(id2, fl)
+        new = hx.snap(g._data)
+        x.check('get_flags after an edit of another (or the same) tile',
+                g.get_flags(idn, mask) == (new[idn] & mask))
+        return
+    if kind == 'sfx':
+        m = x.mem('sfx', 4352)
+        s = hx.made(Sfx, m)
+        idn, id2 = x.int('id', 0, 63), x.int('id2', 0, 63)
+        note, note2 = x.int('note', 0, 31), x.int('note2', 0, 31)
+        first = s.get_note(idn, note)
+        pr0 = s.get_properties(idn)
+        if x.choice('write', ['note', 'props']) == 'note':
+            s.set_note(id2, note2, pitch=x.int('pitch', 0, 63),
+                       volume=x.int('vol', 0, 7))
+        else:
+            s.set_properties(id2, note_duration=x.int('dur', 0, 255),
+                             loop_start=x.int('ls', 0, 255))
+        new = hx.snap(s._data)
+        base = idn * 68 + note * 2
+        ep, ew, ev, ee = M.note_fields(new[base], new[base + 1])
+        got = s.get_note(idn, note)
+        x.check('get_note after an edit elsewhere in sfx memory',
+                And(got[0] == ep, got[1] == ew, got[2] == ev, got[3] == ee))
+        pr = s.get_properties(idn)
+        x.check('get_properties after an edit elsewhere', And(*[
+            pr[k] == new[idn * 68 + 64 + k] for k in range(4)]))
+        return
+    m = x.mem('music', 256)
+    mu = hx.made(Music, m)
+    idn, id2 = x.int('id', 0, 63), x.int('id2', 0, 63)
+    ch, ch2 = x.int('ch', 0, 3), x.int('ch2', 0, 3)
+    first = mu.get_channel(idn, ch)
+    pr0 = mu.get_properties(idn)
+    if x.choice('write', ['channel', 'props']) == 'channel':
+        mu.set_channel(id2, ch2, x.int('pat', 0, 63))
+    else:
+        mu.set_properties(id2, begin=x.choice('begin', [None, True, False]),
+                          end=x.choice('end', [None, True, False]))
+    new = hx.snap(mu._data)
+    nb = new[idn * 4 + ch]
+    got = mu.get_channel(idn, ch)
+    if got is None:
+        x.check('get_channel after an edit elsewhere (silent)',
+                (nb & 0x7f) > 63)
+    else:
+        x.check('get_channel after an edit elsewhere',
+                And((nb & 0x7f) <= 63, got == (nb & 0x7f)))
+    pr = mu.get_properties(idn)
+    x.check('get_properties after an edit elsewhere', And(*[
+        pr[k] == ((new[idn * 4 + k] & 0x80) != 0) for k in range(3)]))
+
+
+def copies(x, p):
+    """Section objects made from the same bytes (the constructor, from_bytes,
+    a snapshot taken with from_bytes(to_bytes())) are separate carts' worth
+    of memory: an edit of one changes neither the others nor the caller's
+    buffer."""
+    cls = {'gff': Gff, 'gfx': Gfx, 'music': Music}[p['cls']]
+    buf = x.bytearray('buf', 8)
+    orig = hx.snap(buf)
+    a = cls(data=buf, version=8)
+    b = cls.from_bytes(buf, version=8)
+    c = cls.from_bytes(a.to_bytes(), version=8)
+    v = x.int('v', 0, 255)
+    k = x.int('k', 0, 7)
+    if cls is Gff:
+        a.reset_flags(k, v)
+    elif cls is Music:
+        a.set_channel(k // 4, k % 4, v & 63)
+    else:
+        a._data[k] = v
+    j = x.int('j', 0, 7)
+    x.check('an object made from the same buffer is not changed',
+            b._data[j] == orig[j])
+    x.check('a snapshot made with from_bytes(to_bytes()) is not changed',
+            c._data[j] == orig[j])
+    x.check('the caller\'s buffer is not changed', buf[j] == orig[j])
 
 
 # --- the loaded cart: map rows 32-63 live in *its* sprite memory -----------------
@@ -456,6 +609,12 @@ HARNESSES = [
     Harness('sfx_note', sfx_note, logic='QF_AUFBV', quick=[Q]),
     Harness('sfx_props', sfx_props, logic='QF_AUFBV', quick=[Q]),
     Harness('linkage', linkage, logic='QF_AUFBV', quick=[Q]),
+    Harness('copies', copies, logic='QF_AUFBV',
+            quick=[dict(Q, cls=c) for c in ('gff', 'gfx', 'music')]),
+    Harness('rwr', rwr, logic='QF_AUFBV',
+            quick=[dict(Q, kind=k) for k in (
+                'sprite-via-map', 'sprite-via-sprite', 'cell-via-sprite',
+                'pixels-via-cell', 'gff', 'sfx', 'music')]),
     Harness('music', music, logic='QF_AUFBV',
             quick=[dict(Q, op='channel'), dict(Q, op='props')]),
 ]
